@@ -693,7 +693,7 @@ fn main() {
 
     // ---- merge / widen / append: all ordered pairs of a sub-family
     let fam = if th {
-        let two = brick_alphabet(&[0b0000, 0b0010, 0b0100, 0b0110, 0b0011], &[(0, 0), (0, 1), (1, 1), (1, 2), (2, 2), (0, INF)]);
+        let two = brick_alphabet(&[0b0000, 0b0001, 0b0010, 0b0100, 0b0110, 0b0011], &MINMAX);
         pair_family(&full, &two)
     } else {
         let one = brick_alphabet(&[0b0000, 0b0001, 0b0010, 0b0100, 0b0110, 0b0011, 0b1000, 0b1010], &MINMAX);
@@ -727,7 +727,7 @@ fn main() {
         json!({
             "brick alphabet": "Top, or string set = any subset of {\"\",a,b,ab} with (min,max) in {(0,0),(0,1),(1,1),(0,2),(1,2),(2,2),(1,3),(0,inf),(1,inf)}, inf = u32::MAX: 145 bricks",
             "normalize": format!("every list of <= {max_len} bricks: {n_lists} values"),
-            "merge/append/widen": format!("all ordered pairs of {nf} values: Top, all lists of <= 1 brick ({}), all 2-brick lists over a reduced alphabet ({})", if th { "full alphabet" } else { "8 string sets x 9 (min,max) + Top" }, if th { "Top + string sets {},{a},{b},{a,b},{\"\",a} x (0,0),(0,1),(1,1),(1,2),(2,2),(0,inf)" } else { "Top + string sets {a},{b},{a,b} x (0,1),(1,1),(0,inf)" }),
+            "merge/append/widen": format!("all ordered pairs of {nf} values: Top, all lists of <= 1 brick ({}), all 2-brick lists over a reduced alphabet ({})", if th { "full alphabet" } else { "8 string sets x 9 (min,max) + Top" }, if th { "Top + string sets {},{\"\"},{a},{b},{a,b},{\"\",a} x all 9 (min,max)" } else { "Top + string sets {a},{b},{a,b} x (0,1),(1,1),(0,inf)" }),
             "character inclusion": "all 36 values over {a,b,c} (certain ⊆ possible, possible may be Top, plus Top): all ordered pairs for merge and append; From<String> for all 40 strings of length <= 3",
             "concretisation": "all 127 strings of length <= 6 over {a,b}",
         }),
